@@ -268,8 +268,24 @@ def padding_codecs(chk, L):
                     lf = by_span.get((int(r["offset"]), int(r["width"])))
                 except (TypeError, ValueError):
                     lf = None
-            if lf is None:
-                continue  # re-sliced padding: the bytes are covered by other leaves, judged by the layout comparison
+            same_span = lf is not None and lf.offset.is_const() and lf.width is not None and lf.width.is_const() and str(lf.offset.value()) == str(r["offset"]) and str(lf.width.value()) == str(r["width"])
+            if lf is None or not same_span:
+                # re-sliced padding: whatever now starts inside the area at a fixed position must not demand more of the bytes than the area's
+                # class allows (the layout comparison judges the rest)
+                try:
+                    lo, hi = int(r["offset"]), int(r["offset"]) + int(r["width"])
+                except (TypeError, ValueError):
+                    lo = hi = None
+                was = _strictness(r["codec"])
+                for (o, w), inner in sorted(by_span.items()):
+                    if lo is not None and lo <= o < hi and w > 0 and inner is not lf:
+                        n += 1
+                        now = _strictness(leaf_record(inner)["codec"])
+                        chk.require(now <= was, "C20-P1", f"{key}: {r['path']}", f"bytes {o}..+{w} of the padding {r['path']} are read as {names[now].split(' (')[0]}",
+                                    f"padding {r['path']} (bytes {r['offset']}..+{r['width']}) was read as {names[was]}; its bytes {o}..+{w} are now the field {inner.name}, read as {names[now]}: padding content of "
+                                    f"its declared class makes the record - and the open - fail, or steers how the rest of the record is cut", key=f"{key}:{r['path']}:padding-resliced")
+                if lf is None:
+                    continue
             n += 1
             was, now = _strictness(r["codec"]), _strictness(leaf_record(lf)["codec"])
             chk.require(now <= was, "C20-P1", f"{key}: {r['path']}", f"padding {r['path']} is read as {names[now].split(' (')[0]}",
